@@ -4,7 +4,7 @@ CONSTANTS
   NW = 2
   NT = 3
   ECodes = {0, 1, 100, 1515, 1501, 115}
-  TCodes = {1111,1112,1113,1121,1122,1123,1131,1132,1133,1211,1212,1213,1221,1222,1223,1231,1232,1233,1311,1312,1313,1321,1322,1323,1331,1332,1333,2131,2211,2212,2213,2221,2222,2223,2231,2232,2233,2311,2312,2313,2321,2322,2323,2331,2332,2333,3123,3211,3311,3312,3313,3321,3322,3323,3331,3332,3333}
+  TCodes = {1111,2222,3333,1123,1223,1233,3211,3321,3221,2131,3123,1323,1212,2121,1313,3131,2323,3232,1132,2213,3312,1231,2312,3121,1112,2221,3332,1333,1322,2113}
   QuadIds = {4}
   ClampE = 15
   SlackE = 14
